@@ -9,6 +9,11 @@
 //!   fetch <policy> <now|real> <cache> <expected|!> <server>       (cache: ! absent, = keep, mtime:enc text,
 //!         G<mtime>:<bytes, comma separated> a file whose bytes are not UTF-8, D<mtime> a directory at the entry path)
 //!   hash <enc text>
+//!   prime <enc project root> <enc url> <enc body>      (fills the remote cache of a sandbox through the real fetch path)
+//! WHERE a cache entry lives is never computed here: an entry is planted by running the real fetch path
+//! once (mock client, refresh policy) and locating what it wrote by a recursive scan of the state
+//! directory for `*.toml`; the entry found is then given the wanted content / kind / mtime in place.
+//! The cache after a run is whatever `*.toml` entries the scan finds.
 //! Every case runs under catch_unwind.
 use sgv::{dec, enc, quiet_panics};
 use sloc_guard::config::{
@@ -165,10 +170,126 @@ fn sha256_hex(s: &str) -> String {
     compute_content_hash(s)
 }
 
-fn cache_path(root: &Path, url: &str) -> PathBuf {
-    root.join(".sloc-guard")
-        .join("remote-configs")
-        .join(format!("{}.toml", sha256_hex(url)))
+/// Every `*.toml` entry (file, or directory of that name) below the state directory of `root`,
+/// found by scanning; the layout below the state directory is the implementation's business.
+fn scan_entries(root: &Path) -> Vec<PathBuf> {
+    fn walk(dir: &Path, out: &mut Vec<PathBuf>) {
+        let Ok(rd) = std::fs::read_dir(dir) else {
+            return;
+        };
+        for e in rd.flatten() {
+            let p = e.path();
+            let name = e.file_name().to_string_lossy().to_string();
+            if name.ends_with(".toml") && !name.starts_with('.') {
+                out.push(p);
+            } else if p.is_dir() {
+                walk(&p, out);
+            }
+        }
+    }
+    let mut out = Vec::new();
+    walk(&root.join(".sloc-guard"), &mut out);
+    walk(&root.join(".git").join("sloc-guard"), &mut out);
+    out.sort();
+    out
+}
+
+fn clear_entries(root: &Path) {
+    for e in scan_entries(root) {
+        clear_entry(&e);
+    }
+}
+
+/// Run `f` with the crash / sync / trace hooks switched off (priming is set-up, not the run under test).
+fn hooks_off<T>(f: impl FnOnce() -> T) -> T {
+    let saved: Vec<(&str, Option<String>)> = ["SGV_CRASH_AT", "SGV_SYNC_DIR", "SGV_TRACE"]
+        .iter()
+        .map(|k| (*k, std::env::var(k).ok()))
+        .collect();
+    // SAFETY: the harness is single-threaded
+    unsafe {
+        for (k, _) in &saved {
+            std::env::remove_var(k);
+        }
+    }
+    let r = f();
+    unsafe {
+        for (k, v) in &saved {
+            if let Some(v) = v {
+                std::env::set_var(k, v);
+            }
+        }
+    }
+    r
+}
+
+/// Fill the cache entry of `url` with `body` through the real fetch path (mock client, refresh
+/// policy, no pin); returns the entry the run created or rewrote, located by scanning.
+fn prime(root: &Path, url: &str, body: &str) -> PathBuf {
+    let before: Vec<(PathBuf, Option<Vec<u8>>)> = scan_entries(root)
+        .into_iter()
+        .map(|p| {
+            let b = std::fs::read(&p).ok();
+            (p, b)
+        })
+        .collect();
+    let client = Scripted {
+        body: Some(body.to_string()),
+        fail: 0,
+        count: Cell::new(0),
+    };
+    let r = hooks_off(|| {
+        fetch_remote_config_with_client(url, &client, Some(root), None, FetchPolicy::ForceRefresh)
+    });
+    assert!(r.is_ok(), "priming fetch failed");
+    let after = scan_entries(root);
+    let mut hit: Vec<PathBuf> = after
+        .into_iter()
+        .filter(|p| {
+            std::fs::read(p).ok().as_deref() == Some(body.as_bytes())
+                && !before
+                    .iter()
+                    .any(|(q, b)| q == p && b.as_deref() == Some(body.as_bytes()))
+        })
+        .collect();
+    if hit.is_empty() {
+        // the entry already held this very body: it is the one whose content equals the body
+        hit = scan_entries(root)
+            .into_iter()
+            .filter(|p| std::fs::read(p).ok().as_deref() == Some(body.as_bytes()))
+            .collect();
+    }
+    assert!(hit.len() == 1, "priming did not leave exactly one new entry");
+    hit.pop().expect("entry")
+}
+
+thread_local! {
+    /// the entry path of (root, URL) as learnt from the first priming run of this process
+    static LEARNT: std::cell::RefCell<Option<(PathBuf, PathBuf)>> = const { std::cell::RefCell::new(None) };
+}
+
+/// The (empty) place where the implementation keeps the entry of URL below `root`.
+fn entry_place(root: &Path) -> PathBuf {
+    if let Some(p) = LEARNT.with(|l| {
+        l.borrow()
+            .as_ref()
+            .filter(|(r, _)| r == root)
+            .map(|(_, p)| p.clone())
+    }) {
+        if let Some(parent) = p.parent() {
+            std::fs::create_dir_all(parent).expect("mkdir");
+        }
+        return p;
+    }
+    let p = prime(root, URL, "# sgv priming body\n");
+    clear_entry(&p);
+    LEARNT.with(|l| *l.borrow_mut() = Some((root.to_path_buf(), p.clone())));
+    p
+}
+
+/// The single entry present (None when the cache is empty); more than one is reported by the caller.
+fn the_entry(root: &Path) -> Option<PathBuf> {
+    scan_entries(root).into_iter().next()
 }
 
 /// Value-level replica of FileConfigLoader::load_from_path / load_from_path_without_extends
@@ -229,9 +350,8 @@ fn resolve_case(f: &[&str], scratch: &Path) -> String {
                 fs.files.insert(PathBuf::from(dec(p[1])), (canon, content));
             }
             "remote" => {
-                let cp = cache_path(&root, &dec(p[1]));
-                std::fs::create_dir_all(cp.parent().expect("parent")).expect("mkdir");
-                std::fs::write(&cp, dec(p[2])).expect("write cache");
+                // the offline cache is filled through the real fetch path
+                prime(&root, &dec(p[1]), &dec(p[2]));
             }
             _ => panic!("bad item"),
         }
@@ -351,18 +471,18 @@ fn fetch_case(f: &[&str], scratch: &Path) -> (String, String, u64) {
         }
     }
     let root = scratch.join("fetch-root");
-    let cp = cache_path(&root, URL);
-    std::fs::create_dir_all(cp.parent().expect("parent")).expect("mkdir");
+    std::fs::create_dir_all(&root).expect("mkdir");
     let mut preset_mtime: Option<u64> = None;
     match f[3] {
         "=" => {
-            preset_mtime = mtime_secs(&cp);
+            preset_mtime = the_entry(&root).and_then(|p| mtime_secs(&p));
         }
         "!" => {
-            clear_entry(&cp);
+            clear_entries(&root);
         }
         c => {
-            clear_entry(&cp);
+            clear_entries(&root);
+            let cp = entry_place(&root);
             // real clock: the stamp field is the AGE of the entry in seconds
             let stamp_of = |m: &str| -> u64 {
                 let m: u64 = m.parse().expect("mtime");
@@ -410,20 +530,29 @@ fn fetch_case(f: &[&str], scratch: &Path) -> (String, String, u64) {
         Err(e) => format!("OTHER {}", enc(&e.to_string())),
     };
     // the file system stamps a fresh write with the wall clock; under the simulated clock the
-    // harness re-stamps a file written by this call with the simulated time
-    let after = mtime_secs(&cp);
-    let written = after.is_some() && after != preset_mtime;
-    if written && !real {
-        set_mtime(&cp, now);
+    // harness re-stamps an entry written by this call with the simulated time
+    let entries = scan_entries(&root);
+    if entries.len() > 1 {
+        return (out, format!("MULTI {}", entries.len()), client.count.get());
     }
-    let state = if real {
-        // report the age instead of the absolute time
-        entry_state(
-            &cp,
-            if written { 0 } else { now.saturating_sub(mtime_secs(&cp).unwrap_or(0)) },
-        )
-    } else {
-        read_cache_state(&cp)
+    let state = match entries.first() {
+        None => "!".to_string(),
+        Some(cp) => {
+            let after = mtime_secs(cp);
+            let written = after.is_some() && after != preset_mtime;
+            if written && !real {
+                set_mtime(cp, now);
+            }
+            if real {
+                // report the age instead of the absolute time
+                entry_state(
+                    cp,
+                    if written { 0 } else { now.saturating_sub(mtime_secs(cp).unwrap_or(0)) },
+                )
+            } else {
+                read_cache_state(cp)
+            }
+        }
     };
     (out, state, client.count.get())
 }
@@ -469,6 +598,11 @@ fn handle(f: &[&str], scratch: &Path) -> String {
             Err(_) => "UNSERIALISABLE".to_string(),
         },
         "hash" => enc(&sha256_hex(&dec(f[1]))),
+        // prime <root> <url> <body>: the sandbox's remote cache is filled through the real fetch path
+        "prime" => {
+            let p = prime(Path::new(&dec(f[1])), &dec(f[2]), &dec(f[3]));
+            format!("OK {}", enc(&p.to_string_lossy()))
+        }
         "resolve" => resolve_case(f, scratch),
         "fetch" => {
             let (o, st, n) = fetch_case(f, scratch);
